@@ -19,6 +19,7 @@ META = {
 }
 META['explanation'] += ' R14.10 a list of arrays being printed is scoped: every entry is removed before the routine returns normally.'
 META['explanation'] += ' R14.11 int(text) and float(text) prepare their text the same way (both trim, or neither).'
+META['explanation'] += ' R14.12 print shows every element of an array, also of one that occurs twice in the value printed.'
 BUILTINS = {'print': 'call_print', 'type': 'call_type', 'bool': 'call_bool', 'int': 'call_int', 'float': 'call_float', 'string': 'call_string', 'lengte': 'call_length'}
 OWN = {'call_bool': 'Bool', 'call_int': 'Int', 'call_float': 'Float', 'call_string': 'String'}
 TYPE = 'object::Type'
